@@ -73,6 +73,8 @@ func init() {
 		Run: func(w *World, r *Report) {
 			v2 := w.Pkg(pathV2)
 			pf := newPatchFamily(w, v2, "v2")
+			safely(r, "ruleEveryHunk", func() { ruleEveryHunk(w, r, pf) })
+			safely(r, "ruleNotIgnoredVia", func() { ruleNotIgnoredVia(w, r, pf) })
 			safely(r, "ruleFWD", func() { ruleFWD(w, r, pf, []string{"pathAhead", "oldValues", "newValues", "strategy"}) })
 			ruleOptFwd(w, r, v2, "v2", "Option", func(fn *ssa.Function) bool { return patchSide(fn) || equalsSide(fn) || diffSide(fn) }, nil)
 			safely(r, "ruleHunkRaw", func() { ruleHunkRaw(w, r, v2, "v2") })
@@ -118,6 +120,8 @@ func init() {
 			safely(r, "ruleExpect", func() { ruleExpect(w, r, pf, listModePatch) })
 			safely(r, "ruleDescend", func() { ruleDescend(w, r, pf) })
 			safely(r, "ruleNotIgnored", func() { ruleNotIgnored(w, r, pf, listModePatch) })
+			safely(r, "ruleNotIgnoredVia", func() { ruleNotIgnoredVia(w, r, pf) })
+			safely(r, "ruleEveryHunk", func() { ruleEveryHunk(w, r, pf) })
 			safely(r, "ruleCreateOnlyMerge", func() { ruleCreateOnlyMerge(w, r, pf, nil) })
 			{
 				// exactness of Equals: strict checks compare with it
@@ -283,6 +287,7 @@ func init() {
 			safely(r, "ruleIdentUse", func() { ruleIdentUse(w, r, v2, "v2") })
 			safely(r, "ruleObjRecurse", func() { ruleObjRecurse(w, r, v2, "v2") })
 			safely(r, "ruleNoEmpty", func() { ruleNoEmpty(w, r, v2, "v2", "Remove", "Add") })
+			safely(r, "ruleScalarDiffStrict", func() { ruleScalarDiffStrict(w, r, v2, "v2") })
 			safely(r, "ruleHashDom", func() {
 				ruleHashDom(w, r, nt, map[string]bool{"jsonString": true, "jsonNumber": true, "jsonBool": true, "jsonNull": true, "jsonList": true, "jsonObject": true})
 			})
@@ -319,6 +324,8 @@ func init() {
 			safely(r, "ruleChildResult", func() { ruleChildResult(w, r, pf) })
 			safely(r, "ruleSetTarget", func() { ruleSetTarget(w, r, pf) })
 			safely(r, "ruleNotIgnored", func() { ruleNotIgnored(w, r, pf, setModePatch) })
+			safely(r, "ruleNotIgnoredVia", func() { ruleNotIgnoredVia(w, r, pf) })
+			safely(r, "ruleEveryHunk", func() { ruleEveryHunk(w, r, pf) })
 			r.Floor("R-EXPECT", 6)
 		}})
 }
@@ -337,6 +344,7 @@ func init() {
 			safely(r, "ruleRootPath", func() { ruleRootPath(w, r, v2, "v2") })
 			safely(r, "ruleCursor", func() { ruleCursor(w, r, v2, "v2") })
 			safely(r, "ruleNoEmpty", func() { ruleNoEmpty(w, r, v2, "v2", "Remove", "Add") })
+			safely(r, "ruleScalarDiffStrict", func() { ruleScalarDiffStrict(w, r, v2, "v2") })
 			safely(r, "ruleOptFwd", func() { ruleOptFwd(w, r, v2, "v2", "Option", diffSide, nil) })
 			safely(r, "ruleSetMember", func() { ruleSetMember(w, r, v2, "v2", "Remove", "Add") })
 			safely(r, "ruleBagCount", func() { ruleBagCount(w, r, v2, "v2", "Remove", "Add") })
@@ -449,6 +457,8 @@ func init() {
 			safely(r, "ruleCreateOnlyMerge", func() { ruleCreateOnlyMerge(w, r, pf, nil) })
 			safely(r, "ruleDescend", func() { ruleDescend(w, r, pf) })
 			safely(r, "ruleNotIgnored", func() { ruleNotIgnored(w, r, pf, listModePatch) })
+			safely(r, "ruleNotIgnoredVia", func() { ruleNotIgnoredVia(w, r, pf) })
+			safely(r, "ruleEveryHunk", func() { ruleEveryHunk(w, r, pf) })
 			safely(r, "ruleKinds", func() { ruleKinds(w, r, v2) })
 			safely(r, "ruleCtxPos", func() { ruleCtxPos(w, r, pf) })
 			safely(r, "ruleDashAppend", func() { ruleDashAppend(w, r, pf) })
@@ -482,6 +492,8 @@ func init() {
 				pf := newPatchFamily(w, v2, "v2")
 				safely(r, "ruleDescend", func() { ruleDescend(w, r, pf) })
 				safely(r, "ruleNotIgnored", func() { ruleNotIgnored(w, r, pf, listModePatch) })
+				safely(r, "ruleNotIgnoredVia", func() { ruleNotIgnoredVia(w, r, pf) })
+				safely(r, "ruleEveryHunk", func() { ruleEveryHunk(w, r, pf) })
 			}
 			safely(r, "ruleWholeObject", func() { ruleWholeObject(w, r, v2, "v2", "Add") })
 			{
@@ -509,12 +521,15 @@ func init() {
 			safely(r, "ruleMergeRead", func() { ruleMergeRead(w, r, v2) })
 			safely(r, "ruleMergeRoot", func() { ruleMergeRoot(w, r, v2, "v2") })
 			safely(r, "ruleMergeKeep", func() { ruleMergeKeep(w, r, newPatchFamily(w, v2, "v2")) })
+			safely(r, "ruleHunkNoGlobal", func() { ruleHunkNoGlobal(w, r, v2, "v2", "Before", "Remove", "Add", "After") })
 			pf := newPatchFamily(w, v2, "v2")
 			safely(r, "ruleFWD", func() { ruleFWD(w, r, pf, []string{"newValues", "strategy", "pathAhead"}) })
 			safely(r, "ruleChildResult", func() { ruleChildResult(w, r, pf) })
 			safely(r, "ruleLoopFresh", func() { ruleLoopFresh(w, r, v2, "v2", [][2]string{{"", "readMergeInto"}, {"", "ReadMergeString"}}, "Add", "Remove", "Before", "After") })
 			safely(r, "ruleDescend", func() { ruleDescend(w, r, pf) })
 			safely(r, "ruleNotIgnored", func() { ruleNotIgnored(w, r, pf, listModePatch) })
+			safely(r, "ruleNotIgnoredVia", func() { ruleNotIgnoredVia(w, r, pf) })
+			safely(r, "ruleEveryHunk", func() { ruleEveryHunk(w, r, pf) })
 			safely(r, "ruleDeleteVoid", func() { ruleDeleteVoid(w, r, pf) })
 			safely(r, "rulePathFresh", func() { rulePathFresh(w, r, v2, "v2") })
 		}})
@@ -557,11 +572,14 @@ func init() {
 			safely(r, "ruleOptFwd", func() { ruleOptFwd(w, r, lib, "lib", "Metadata", nil, libOptExempt) })
 			safely(r, "ruleProv", func() { ruleProv(w, r, lib, "lib", map[string]string{"OldValues": "a", "NewValues": "b"}) })
 			safely(r, "ruleNoEmpty", func() { ruleNoEmpty(w, r, lib, "lib", "OldValues", "NewValues") })
+			safely(r, "ruleScalarDiffStrict", func() { ruleScalarDiffStrict(w, r, lib, "lib") })
 			safely(r, "rulePathFresh", func() { rulePathFresh(w, r, lib, "lib") })
 			safely(r, "ruleIdentUse", func() { ruleIdentUse(w, r, lib, "lib") })
 			safely(r, "ruleObjRecurse", func() { ruleObjRecurse(w, r, lib, "lib") })
 			safely(r, "ruleDeleteVoid", func() { ruleDeleteVoid(w, r, pf) })
 			safely(r, "ruleNotIgnored", func() { ruleNotIgnored(w, r, pf, nil) })
+			safely(r, "ruleNotIgnoredVia", func() { ruleNotIgnoredVia(w, r, pf) })
+			safely(r, "ruleEveryHunk", func() { ruleEveryHunk(w, r, pf) })
 			safely(r, "rulePatchResult", func() { rulePatchResult(w, r, pf, nil) })
 			safely(r, "ruleRawTypesTag", func() { ruleRawTypesTag(w, r, lib, "lib") })
 			safely(r, "ruleDiffReaders", func() { ruleDiffReaders(w, r, lib, "lib", "Diff") })
@@ -590,6 +608,9 @@ func init() {
 			safely(r, "ruleObjRecurse", func() { ruleObjRecurse(w, r, lib, "lib") })
 			safely(r, "ruleJSONCodec", func() { ruleJSONCodec(w, r, lib, "lib") })
 			safely(r, "ruleDeleteVoid", func() { ruleDeleteVoid(w, r, newPatchFamily(w, lib, "lib")) })
+			safely(r, "rulePtrDecoded", func() { rulePtrDecoded(w, r, lib, "lib") })
+			safely(r, "ruleEveryHunk", func() { ruleEveryHunk(w, r, newPatchFamily(w, lib, "lib")) })
+			safely(r, "ruleHunkNoGlobal", func() { ruleHunkNoGlobal(w, r, lib, "lib", "OldValues", "NewValues") })
 			safely(r, "ruleDiffReaders", func() { ruleDiffReaders(w, r, lib, "lib", "Patch", "Merge") })
 			safely(r, "ruleSentinels", func() { ruleSentinels(w, r, lib, "lib") })
 			safely(r, "ruleScanErr", func() { ruleScanErr(w, r, lib, "lib") })
